@@ -62,7 +62,7 @@ def independent_paths(root):
 
 
 def canon_text(obj) -> str:
-  enc = l2.Encoder(common.Interner())
+  enc = l2.Encoder(common.Interner(), canonical=True)
   r = enc.ref(obj)
   return r + "|" + enc.heap()
 
